@@ -51,6 +51,12 @@ OPTIMS = {
     "asgd": (torch.optim.ASGD, {"weight_decay": 0.1, "t0": 0}),
     "sgd_foreach": (torch.optim.SGD, {"foreach": True, "momentum": 0.9, "weight_decay": 0.05}),
     "adam_foreach": (torch.optim.Adam, {"foreach": True, "weight_decay": 0.1}),
+    # audit2-4 C20-1: classes / kernels of the installed torch (2.14) that `fit` can drive and the list above predates
+    "adafactor": (torch.optim.Adafactor, {}),                     # row/column-factored second moment, own relative step
+    "adafactor_wd": (torch.optim.Adafactor, {"weight_decay": 0.1}),
+    "sgd_fused": (torch.optim.SGD, {"fused": True, "momentum": 0.9, "weight_decay": 0.05}),
+    "adam_fused": (torch.optim.Adam, {"fused": True, "weight_decay": 0.1}),
+    "adamw_fused": (torch.optim.AdamW, {"fused": True}),
 }
 # learning-rate schedulers for `fit(scheduler=…, scheduler_args=…)` (op field "sched")
 SCHEDULERS = {
@@ -324,7 +330,7 @@ class Real:
             ud = getattr(st, "unitary_dict", None)
             w["states"][str(s)] = {
                 "kind": kind, "nv": int(st.num_visible), "nh": int(st.num_hidden),
-                "na": (int(st.num_aux) if kind == "dens" else None),
+                "na": (int(st.num_aux) if kind == "dens" and getattr(st, "num_aux", None) is not None else None),
                 "nets": [[n, self.obs_net(getattr(st, n))] for n in st.networks],
                 "ud": None if ud is None else self.fval("unitary_dict", ud)}
         for s in sorted(self.modules):
@@ -766,7 +772,7 @@ def snapshot_state(st):
         ud = {"<not a unitary dictionary>": repr(ud)[:120]}
     snap = {"nets": {n: {k: v.detach().clone() for k, v in getattr(st, n).named_parameters()} for n in st.networks},
             "ud": ud,
-            "arch": (int(st.num_visible), int(st.num_hidden), (int(st.num_aux) if isinstance(st, DensityMatrix) else None)),
+            "arch": (int(st.num_visible), int(st.num_hidden), (int(st.num_aux) if isinstance(st, DensityMatrix) and getattr(st, "num_aux", None) is not None else None)),
             "kind": type(st).__name__}
     return snap
 
@@ -806,6 +812,12 @@ def admissible(real, op):
             f = {}
         u = f.get("unitary_dict") if isinstance(f, dict) else None
         if "unitary_dict" in (f if isinstance(f, dict) else {}) and not (isinstance(u, dict) and u and all(isinstance(x, torch.Tensor) for x in u.values())):
+            return False
+    if t == "train" and str(op.get("opt", "")).startswith("adafactor"):
+        # torch.optim.Adafactor itself divides by the size of a parameter: it cannot drive a model with an EMPTY parameter (num_hidden = 0 /
+        # num_aux = 0 of a PurificationRBM) - ZeroDivisionError out of torch's step(); not an optimizer `fit` can drive for that model
+        st = real.models[op["slot"]]
+        if any(p.numel() == 0 for n in st.networks for p in getattr(st, n).parameters()):
             return False
     if t == "train" and op.get("bases"):
         # the training data uses the bases X, Y and Z: a state whose dictionary lacks one of them cannot be trained on it (KeyError)
